@@ -39,6 +39,20 @@ for d in sorted(glob.glob("seeded/*/meta.json")):
                                            str(m.get("confirmed", "")).replace("|", "/").replace("\n", " "), outcome))
 out.append("")
 
+out.append("## 7b. Findings: genuine defects of snapcore/snapd met by the checks (from KNOWN_FINDINGS)\n")
+out.append("`fixed` = repaired in /repo by the one `fix:` commit named (the check passes on the repaired tree and reports the "
+           "violation again if it returns); `known` = recorded, not repaired (the check prints a KNOWN-FINDING line for exactly "
+           "this class and exits 0; any other violation of the property is still reported). Why a finding is not repaired is "
+           "said in the property's notes below (usual reasons: the repair changes behaviour pinned by the package's own tests, "
+           "is a policy decision, or is not small).\n")
+out.append("| property | status | key / commit | what fails |")
+out.append("|---|---|---|---|")
+for l in open("KNOWN_FINDINGS"):
+    m = re.match(r"(known|fixed): property=(\S+) (\S+) (.*)", l.strip())
+    if m:
+        out.append("| %s | %s | %s | %s |" % (m.group(2), m.group(1), m.group(3).replace("key=", ""), m.group(4).replace("|", "/")[:700]))
+out.append("")
+
 out.append("## 8. As-built notes per property (from notes/Cnn.md; they override the plan in section 2 where they differ)\n")
 for f in sorted(glob.glob("notes/C[0-9][0-9].md")):
     pid = os.path.basename(f)[:-3]
